@@ -36,11 +36,11 @@ static std::string site_class(const std::string &report, const std::string &fall
 // ---------------------------------------------------------------- const operations
 static const char *OPN[] = {"evaluate", "evaluateBatch", "getInterpolationWeights", "getQuadratureWeights", "getDifferentiationWeights", "integrate", "differentiate",
                             "evaluateHierarchicalFunctions", "evaluateSparseHierarchicalFunctions", "getPoints", "getHierarchicalCoefficients", "write-binary", "write-ascii",
-                            "integrateHierarchicalFunctions", "getHierarchicalSupport", "evaluateFast"};
-static const int NOPS = 16;
-static std::vector<double> cprobes(const TasmanianSparseGrid &g, const Cfg &cfg, int np){
+                            "integrateHierarchicalFunctions", "getHierarchicalSupport", "evaluateFast", "evaluateSparseHierarchicalFunctionsGetNZ+Static"};
+static const int NOPS = 17;
+static std::vector<double> cprobes(const TasmanianSparseGrid &g, const Cfg &cfg, int np, int who = 0){ // who: the two threads ask about different points
     int d = g.getNumDimensions(); std::vector<double> x; bool tr = !cfg.ta.empty();
-    for(int t=0;t<np;t++) for(int j=0;j<d;j++){ double u = -0.83 + 0.55 * t + 0.21 * j; if (u > 0.97) u -= 1.7; if (g.isFourier()) u = 0.5 * (u + 1.0); x.push_back(tr ? (g.isFourier() ? cfg.ta[j] + u * (cfg.tb[j] - cfg.ta[j]) : 0.5 * (cfg.tb[j] - cfg.ta[j]) * u + 0.5 * (cfg.tb[j] + cfg.ta[j])) : u); }
+    for(int t=0;t<np;t++) for(int j=0;j<d;j++){ double u = -0.83 + 0.55 * t + 0.21 * j + 0.137 * who; if (u > 0.97) u -= 1.7; if (g.isFourier()) u = 0.5 * (u + 1.0); x.push_back(tr ? (g.isFourier() ? cfg.ta[j] + u * (cfg.tb[j] - cfg.ta[j]) : 0.5 * (cfg.tb[j] - cfg.ta[j]) * u + 0.5 * (cfg.tb[j] + cfg.ta[j])) : u); }
     return x;
 }
 static bool op_applicable(const TasmanianSparseGrid &g, int op){
@@ -48,8 +48,8 @@ static bool op_applicable(const TasmanianSparseGrid &g, int op){
     switch(op){ case 0: case 1: case 5: case 6: case 10: case 15: return vals; default: return g.getNumPoints() > 0; }
 }
 static std::string hexv(const std::vector<double> &v){ std::string s; for(double x : v){ s += vf::hexd(x); s += ','; } return s; }
-static std::string run_op(const TasmanianSparseGrid &g, const Cfg &cfg, int op){
-    int d = g.getNumDimensions(), outs = g.getNumOutputs(); auto x = cprobes(g, cfg, 3); std::vector<double> x0(x.begin(), x.begin() + d), y;
+static std::string run_op(const TasmanianSparseGrid &g, const Cfg &cfg, int op, int who = 0){
+    int d = g.getNumDimensions(), outs = g.getNumOutputs(); auto x = cprobes(g, cfg, 3, who); std::vector<double> x0(x.begin(), x.begin() + d), y;
     try{
     switch(op){
         case 0: y.resize(outs); g.evaluate(x0.data(), y.data()); return hexv(y);
@@ -67,6 +67,11 @@ static std::string run_op(const TasmanianSparseGrid &g, const Cfg &cfg, int op){
         case 12: return vf::digest(bytes(g, false));
         case 13: { std::vector<double> w; g.integrateHierarchicalFunctions(w); return hexv(w); }
         case 14: return hexv(g.getHierarchicalSupport());
+        case 16: { // the two-step protocol of the C / Python interface: ask for the number of non-zeros, allocate, fill
+            int nx = (int)(x.size() / (size_t) d); int nz = g.evaluateSparseHierarchicalFunctionsGetNZ(x.data(), nx); if (nz < 0) return "negative count";
+            std::vector<int> p((size_t) nx + 1, -7), i((size_t) nz, -7); y.assign((size_t) nz * (g.isFourier() ? 2 : 1), -7.0);
+            g.evaluateSparseHierarchicalFunctionsStatic(x.data(), nx, p.data(), i.data(), y.data());
+            std::string s = hexv(y); for(int v : p) s += std::to_string(v) + ";"; for(int v : i) s += std::to_string(v) + ";"; return s; }
         default: y.resize(outs); g.evaluateFast(x0.data(), y.data()); return hexv(y);
     }
     }catch(std::exception &e){ return std::string("EXC ") + e.what(); }
@@ -107,17 +112,17 @@ static std::vector<StateSpec> states(const std::string &tier){
 static std::string pair_body(const StateSpec &ss, int opa, int opb, std::string *refa, std::string *refb){
     TasmanianSparseGrid g; build_state(ss, g);
     // reference results from an independent copy (restored through the file format) so that caches of g stay untouched
-    { TasmanianSparseGrid c; std::stringstream st; g.write(st, true); c.read(st, true); *refa = run_op(c, ss.cfg, opa); TasmanianSparseGrid c2; std::stringstream st2; g.write(st2, true); c2.read(st2, true); *refb = run_op(c2, ss.cfg, opb); }
+    { TasmanianSparseGrid c; std::stringstream st; g.write(st, true); c.read(st, true); *refa = run_op(c, ss.cfg, opa, 0); TasmanianSparseGrid c2; std::stringstream st2; g.write(st2, true); c2.read(st2, true); *refb = run_op(c2, ss.cfg, opb, 1); }
     std::string ra, rb;
     hook::scheduling = true;
-    std::thread ta([&]{ ra = run_op(g, ss.cfg, opa); }); std::thread tb([&]{ rb = run_op(g, ss.cfg, opb); });
+    std::thread ta([&]{ ra = run_op(g, ss.cfg, opa, 0); }); std::thread tb([&]{ rb = run_op(g, ss.cfg, opb, 1); });
     ta.join(); tb.join();
     hook::scheduling = false;
     return std::string(ra == *refa ? "A=ok" : "A=DIFF") + " " + (rb == *refb ? "B=ok" : "B=DIFF");
 }
 static void profile_pair(const StateSpec &ss, int opa, int opb){
     // sequential pre-pass in a throw-away fork decides which functions are choice points (call count <= MAXCALLS)
-    vf::Outcome o = vf::run_child([&](int fd){ TasmanianSparseGrid g; build_state(ss, g); hook::profiling = true; run_op(g, ss.cfg, opa); run_op(g, ss.cfg, opb); hook::profiling = false;
+    vf::Outcome o = vf::run_child([&](int fd){ TasmanianSparseGrid g; build_state(ss, g); hook::profiling = true; run_op(g, ss.cfg, opa, 0); run_op(g, ss.cfg, opb, 1); hook::profiling = false;
         std::ostringstream s; for(auto &p : hook::counts) if (p.second <= MAXCALLS) s << (unsigned long) p.first << " "; s << "| " << hook::counts.size(); vf::wr(fd, s.str()); }, 60.0);
     hook::selected.clear(); std::istringstream in(o.out); std::string t; while(in >> t){ if (t == "|") break; hook::selected.insert((void*) strtoul(t.c_str(), nullptr, 10)); }
 }
@@ -128,16 +133,16 @@ int main(int argc, char **argv){
     auto S = states(tier);
     struct WU { size_t si; int a, b; int bound; }; std::vector<WU> W;
     if (tier == "quick") MAXCALLS = 4;
-    // quick: 7 representative operations, states {fresh, loaded}, bound 1.  thorough: all 16 operations on all states at bound 1,
+    // quick: 7 representative operations, states {fresh, loaded}, bound 1.  thorough: all 17 operations on all states at bound 1,
     // and the weight / evaluation operations (the ones that may touch lazily built caches) at bound 2.
-    static const int QOPS[] = {0, 2, 3, 4, 7, 11, 11}; static const int DEEP[] = {2, 3, 4, 1};
+    static const int QOPS[] = {0, 2, 3, 4, 7, 11, 16}; static const int DEEP[] = {2, 3, 4, 1, 16};
     auto in = [](const int *set, int n, int v){ for(int i=0;i<n;i++) if (set[i] == v) return true; return false; };
     for(size_t si=0; si<S.size(); si++){ TasmanianSparseGrid g; build_state(S[si], g);
         for(int a=0;a<NOPS;a++) for(int b=0;b<NOPS;b++) if (op_applicable(g, a) && op_applicable(g, b)){
             WU u; u.si = si; u.a = a; u.b = b; u.bound = 1;
 #ifndef VS_NO_INTERPOSE
             if (tier == "quick"){ if (!in(QOPS, 7, a) || !in(QOPS, 7, b) || a > b || S[si].kind != ((S[si].cfg.outs == 0) ? 0 : 1)) continue; }
-            else if (bound >= 2 && in(DEEP, 4, a) && in(DEEP, 4, b) && (S[si].cfg.fam == F_WAVELET || S[si].cfg.fam == F_LOCALP || S[si].cfg.fam == F_SEQUENCE) && S[si].kind == 1) u.bound = 2;
+            else if (bound >= 2 && in(DEEP, 5, a) && in(DEEP, 5, b) && (S[si].cfg.fam == F_WAVELET || S[si].cfg.fam == F_LOCALP || S[si].cfg.fam == F_SEQUENCE) && S[si].kind == 1) u.bound = 2;
 #endif
             W.push_back(u); } }
 #ifdef VS_NO_INTERPOSE
@@ -146,7 +151,7 @@ int main(int argc, char **argv){
         int reps = (tier == "quick") ? 1 : 3;
         auto run_pairs = [&](const StateSpec &ss, const std::vector<WU> &pairs){
             for(auto &u : pairs) for(int r=0;r<reps;r++){ TasmanianSparseGrid g; build_state(ss, g); std::atomic<int> go(0); std::string ra, rb;
-                std::thread ta([&]{ go++; while(go.load() < 2){} ra = run_op(g, ss.cfg, u.a); }); std::thread tb([&]{ go++; while(go.load() < 2){} rb = run_op(g, ss.cfg, u.b); }); ta.join(); tb.join(); } };
+                std::thread ta([&]{ go++; while(go.load() < 2){} ra = run_op(g, ss.cfg, u.a, 0); }); std::thread tb([&]{ go++; while(go.load() < 2){} rb = run_op(g, ss.cfg, u.b, 1); }); ta.join(); tb.join(); } };
         if (A.has("--replay")){
             std::string v = vf::slurp(A.get("--replay")); std::string cs = vf::jget(v, "case"); StateSpec ss; ss.cfg = Cfg::parse(vf::jget(cs, "cfg")); ss.kind = atoi(vf::jget(cs, "state").c_str()); WU u; u.si = 0; u.bound = 0; u.a = atoi(vf::jget(cs, "opa").c_str()); u.b = atoi(vf::jget(cs, "opb").c_str());
             reps = 5; vf::Outcome q = vf::run_child([&](int fd){ run_pairs(ss, std::vector<WU>(1, u)); vf::wr(fd, "done"); }, 300.0);
@@ -163,7 +168,7 @@ int main(int argc, char **argv){
                 if (!reported) vf::violation(std::string("C12:tsan:") + famname(ss.cfg.fam) + ":state-level:" + (o.kind == vf::Outcome::SANITIZER ? o.sanitizer_class() : o.describe()), unit, vf::J().s("cfg", ss.cfg.str()).i("state", ss.kind).i("opa", -1).i("opb", -1).s("mode", "tsan").str(), o.err.substr(0, 1800)); }
             vf::emit(vf::J().s("t","unit").s("unit", unit).i("states", 0).i("transitions", 0).i("execs", ex).i("evals", ex).i("distinct", (long long) P.size()).b("complete", true));
         });
-        vf::emit(vf::J().s("t","summary").i("units_total", (long long) S.size()).i("units_done", (long long) done).s("bound", "free-running ThreadSanitizer pass over every unordered pair of the 16 const operations on every state (auxiliary)").b("exhaustive", done == S.size() && !vf::past_deadline()));
+        vf::emit(vf::J().s("t","summary").i("units_total", (long long) S.size()).i("units_done", (long long) done).s("bound", "free-running ThreadSanitizer pass over every unordered pair of the 17 const operations on every state (auxiliary)").b("exhaustive", done == S.size() && !vf::past_deadline()));
         return 0;
     }
 #endif
@@ -186,6 +191,6 @@ int main(int argc, char **argv){
         vf::emit(vf::J().s("t","unit").s("unit", unit).i("states", St.points).i("transitions", St.points).i("execs", St.execs).i("evals", 2 * St.execs).i("distinct", (long long) oc.size()).i("choice_functions", (long long) hook::selected.size()).i("maxpoints", St.maxpoints).i("violations", nviol).b("complete", !vf::past_deadline()));
     });
     vf::emit(vf::J().s("t","sample").raw("case", vf::J().s("state", S[0].cfg.str() + "/" + SKN[S[0].kind]).s("pair", std::string(OPN[W[0].a]) + "+" + OPN[W[0].b]).str()));
-    vf::emit(vf::J().s("t","summary").i("units_total", (long long) W.size()).i("units_done", (long long) done).s("bound", std::string(tier == "quick" ? "6 representative const operations on the loaded state of every configuration: every unordered pair, two threads, all schedules with <= 1 deviation" : "all 16 const operations on all states: every ordered pair at <= 1 deviation; weight/evaluate operations on loaded local/wavelet/sequence grids at <= 2 deviations") + " over function-entry choice points (functions entered <= " + std::to_string(MAXCALLS) + " times per operation)").b("exhaustive", done == W.size() && !vf::past_deadline()));
+    vf::emit(vf::J().s("t","summary").i("units_total", (long long) W.size()).i("units_done", (long long) done).s("bound", std::string(tier == "quick" ? "7 representative const operations on the loaded state of every configuration: every unordered pair, two threads, all schedules with <= 1 deviation" : "all 17 const operations on all states: every ordered pair at <= 1 deviation; weight/evaluate operations on loaded local/wavelet/sequence grids at <= 2 deviations") + " over function-entry choice points (functions entered <= " + std::to_string(MAXCALLS) + " times per operation)").b("exhaustive", done == W.size() && !vf::past_deadline()));
     return 0;
 }
